@@ -253,7 +253,7 @@ func c06(env *Env, rep *Report) {
 	scs := c06Conc()
 	bound := 2
 	if env.thorough() {
-		bound = 3
+		bound = 4
 	}
 	rep.Bounds = map[string]any{"preemption_bound": bound, "sequential_cases": len(cases)}
 	if env.Replay != nil {
